@@ -597,7 +597,7 @@ func (x *txbExec) op(e *WEnv, a []string) (string, string) {
 		var pbIns []*pb.TransactionInput
 		for _, s := range splitList(a[5]) {
 			p := strings.Split(s, ":")
-			if len(p) != 2 {
+			if len(p) != 2 && !(len(p) == 3 && p[2] == "U") {
 				return "bad-op", ""
 			}
 			ti, ok := e.txs[p[0]]
@@ -605,8 +605,12 @@ func (x *txbExec) op(e *WEnv, a []string) (string, string) {
 			if !ok || err != nil {
 				return "bad-op", ""
 			}
-			ins = append(ins, &masswallet.TxIn{TxId: ti.hash.String(), Vout: uint32(idx)})
-			pbIns = append(pbIns, &pb.TransactionInput{TxId: ti.hash.String(), Vout: uint32(idx)})
+			id := ti.hash.String()
+			if len(p) == 3 {
+				id = strings.ToUpper(id) // the same outpoint, other spelling of the id (decoded case-insensitively)
+			}
+			ins = append(ins, &masswallet.TxIn{TxId: id, Vout: uint32(idx)})
+			pbIns = append(pbIns, &pb.TransactionInput{TxId: id, Vout: uint32(idx)})
 		}
 		amounts, ok := amountsOf(outs)
 		if !ok {
